@@ -102,6 +102,9 @@ def _sys(pid, tier, seed, own, fams, nq, nt, cq, ct, emphasis=None, size_q="smal
             _tw_mc(c, tier, mc[0] if tier == "quick" else mc[0] + mc[1])
         if replay:
             _replay(c, tier)
+        if pid == "C01":
+            # a premature termination vote ends the run before the sequential result is reached
+            _term_phase(c, os.path.join(c.scr, "term.ndjson"), seed, 4000 if tier == "quick" else 30000, 16 if tier == "quick" else 20, {})
         if real:
             c.real_phase(_models(tier, seed + 80, ["mixed", "fanout", "ties", "zerodelay"], 2, 8, "medium", "medium"), real if tier == "quick" else real * 8)
         c.run(_models(tier, seed, fams, nq, nt, size_q, size_t), cq if tier == "quick" else ct, emphasis=emphasis,
@@ -278,6 +281,37 @@ def _mc(spec, cfg, workers=8, timeout=1200, heap="8g"):
     return r
 
 
+def _term_phase(c, tr, seed, nseq, ln, extra, mc_states=0):
+    """the real termination.c driven through legal environment sequences (process / rollback / GVT), validated by TerminationTrace"""
+    import re as _re
+    rc, out = vlib.sh([os.path.join(c.bdir, "termdrv"), tr, str(seed), str(nseq), str(ln)], timeout=120)
+    v = vlib.tlc("TerminationTrace.tla", "TerminationTrace.cfg", env={"TRACE": tr, "OWNC08": "1" if "C08" in c.own else "0"}, workers=1, timeout=1500)
+    v["res"] = vlib.parse_result(v["out"])
+    v["verdict"] = "machinery" if v["res"] is None else "bad" if v["res"]["bad"] else "rejected" if v["res"]["reached"] < v["res"]["total"] else "ok"
+    c.stats["states"] += v["distinct"] + mc_states
+    c.stats["serial_traces"] += nseq
+    extra["driver_sequences"] = nseq
+    extra["driver_lines_validated"] = v["res"]["reached"] if v.get("res") else 0
+    m = _re.search(r'"DIVERGENCES",\s*(\d+)', v["out"])
+    extra["conformance_divergences"] = int(m.group(1)) if m else -1
+    if v["verdict"] == "bad":
+        owned = [b for b in v["res"]["bad"] if b["p"] in c.own]
+        b = owned[0] if owned else v["res"]["bad"][0]
+        lines = open(tr).read().split("\n")
+        i = b["at"] - 1
+        j = i
+        while j > 0 and '"Reset"' not in lines[j]:
+            j -= 1
+        seq = lines[j:i + 1]
+        rec = {"property": b["p"], "what": b["w"] + " | sequence: " + " ".join(seq)[:900], "line": b["at"],
+               "cfg": {"driver": "termdrv", "seed": seed}, "model": ("termdrv", seed), "trace": tr, "md": {}}
+        (c.violations if owned else c.other).append(rec)
+    elif v["verdict"] != "ok":
+        c.machinery.append({"property": c.pid, "what": "termination driver trace: %s %s" % (v["verdict"], json.dumps(v.get("res")))})
+    else:
+        c.samples.append({"driver": "termdrv", "first_sequence": open(tr).read().split("\n")[:12]})
+
+
 def check_C07(tier, seed):
     t0 = time.time()
     c = syscamp.Campaign("C07", tier, seed, own_ids=["C07"])
@@ -297,29 +331,7 @@ def check_C07(tier, seed):
         # (b) the real termination.c driven through legal environment sequences, validated by TLC
         tr = os.path.join(c.scr, "term.ndjson")
         nseq, ln = (4000, 16) if tier == "quick" else (30000, 20)
-        rc, out = vlib.sh([os.path.join(c.bdir, "termdrv"), tr, str(seed), str(nseq), str(ln)], timeout=120)
-        v = vlib.validate_trace("TerminationTrace.tla", "TerminationTrace.cfg", tr, timeout=1500)
-        c.stats["states"] += v["distinct"] + mc["distinct"]
-        c.stats["serial_traces"] += nseq
-        extra["driver_sequences"] = nseq
-        extra["driver_lines_validated"] = v["res"]["reached"] if v.get("res") else 0
-        import re as _re
-        m = _re.search(r'"DIVERGENCES",\s*(\d+)', v["out"])
-        extra["conformance_divergences"] = int(m.group(1)) if m else -1
-        if v["verdict"] == "bad":
-            b = v["res"]["bad"][0]
-            lines = open(tr).read().split("\n")
-            i = b["at"] - 1
-            j = i
-            while j > 0 and '"Reset"' not in lines[j]:
-                j -= 1
-            seq = lines[j:i + 1]
-            c.violations.append({"property": "C07", "what": b["w"] + " | sequence: " + " ".join(seq)[:900], "line": b["at"],
-                                 "cfg": {"driver": "termdrv", "seed": seed}, "model": ("termdrv", seed), "trace": tr, "md": {}})
-        elif v["verdict"] != "ok":
-            c.machinery.append({"property": "C07", "what": "termination driver trace: %s %s" % (v["verdict"], json.dumps(v.get("res")))})
-        else:
-            c.samples.append({"driver": "termdrv", "first_sequence": open(tr).read().split("\n")[:12]})
+        _term_phase(c, tr, seed, nseq, ln, extra, mc["distinct"])
         # (c) whole-system runs
         em = lambda r: {"batch": r.choice([1, 2, 64]), "period": r.choice([0, 0, 40])}
         c.run(_models(tier, seed, ["nonmono", "time0:medium", "initdone", "mixed", "nonmono", "time0:medium", "sparse"], 8, 36),
@@ -337,6 +349,8 @@ def check_C08(tier, seed):
         c.build()
         # the teardown protocol at design level: TLC refutes "every run returns" for the protocol as implemented (known finding D9) and
         # proves it, within the bounds, for the variant in which thread 0 re-tests termination before opening a round in the main loop
+        # the termination accounting driven through legal call sequences: a thread that is obliged to vote (two GVT values in a row) must vote
+        _term_phase(c, os.path.join(c.scr, "term.ndjson"), seed, 4000 if tier == "quick" else 30000, 16 if tier == "quick" else 20, {})
         c.mc_known_phase("GvtShutdown.tla", "GvtShutdown_q.cfg", "AllReturn", "D9", "GvtRound + votes + gvt_msg_drain (flush, barrier, two flushing rounds), "
                          "2 threads: a round opened after the last vote is never joined by the threads already in the barrier", workers=8, timeout=900, heap="8g")
         c.mc_phase("GvtShutdown.tla", "GvtShutdown_fix2.cfg", "the same with the re-test (candidate repair, single node): every run returns; 2 threads, one late voter",
